@@ -421,7 +421,7 @@ func runWholeSession(c *Ctx, idx int) error {
 		y[k] = r.Bool()
 	}
 	kind := otKinds[idx%3]
-	grand := &blockLog{r: r.Fork()}
+	grand := &blockLog{r: r.Fork(), skipKey: true}
 	gOT := &recOT{OT: kind.mk(r.Fork())}
 	eOT := &recOT{OT: kind.mk(r.Fork())}
 	res := runSession(circ, bitsToBig(x), bitsToBig(y), grand, gOT, eOT, 0, r.Fork(), nil, 60*time.Second)
@@ -491,7 +491,7 @@ func runStreamSession(c *Ctx, idx int) error {
 	ga, ea, g2e, _ := newDuplexPair(r, 0)
 	gConn := p2p.NewConn(ga)
 	eConn := p2p.NewConn(ea)
-	grand := &blockLog{r: r.Fork()}
+	grand := &blockLog{r: r.Fork(), skipKey: true}
 	params := utils.NewParams()
 	defer params.Close()
 	params.Config = &env.Config{Rand: grand}
